@@ -27,6 +27,9 @@ type C17Case struct {
 	SelKeys    int   `json:"sel_keys"`  // 1..3 matchLabels keys
 	SelExpr    bool  `json:"sel_expr"`  // plus a matchExpressions requirement
 	Revs       int   `json:"revs"`      // 0..5 revisions of the set
+	// OrphanMask: bit i set = revision i matches the selector but has no owner (left behind by an orphaning
+	// delete + re-create of the built-in set, not yet adopted): still a revision of the set
+	OrphanMask int `json:"orphan_mask,omitempty"`
 	Unrelated  int   `json:"unrelated"` // revisions of somebody else
 	Pods       int   `json:"pods"`
 	Claims     int   `json:"claims"`
@@ -56,6 +59,9 @@ func genC17(rt *rapid.T) C17Case {
 		Partition: int32(rapid.IntRange(0, 2).Draw(rt, "partition")),
 		All:       thorough(),
 		Retries:   rapid.IntRange(1, 3).Draw(rt, "retries"),
+	}
+	if rapid.IntRange(0, 2).Draw(rt, "orphanRevs") == 0 {
+		c.OrphanMask = rapid.IntRange(1, 31).Draw(rt, "orphanMask")
 	}
 	if !c.All {
 		for i := 0; i < 4; i++ {
@@ -117,7 +123,11 @@ func buildC17(cs C17Case) *c17World {
 			lbl[k] = v
 		}
 		name := fmt.Sprintf("web-r%d", i)
-		c.Put(&appsv1.ControllerRevision{ObjectMeta: metav1.ObjectMeta{Name: name, Namespace: NS, Labels: lbl, OwnerReferences: owner}, Revision: int64(i + 1)})
+		own := owner
+		if cs.OrphanMask&(1<<uint(i)) != 0 {
+			own = nil
+		}
+		c.Put(&appsv1.ControllerRevision{ObjectMeta: metav1.ObjectMeta{Name: name, Namespace: NS, Labels: lbl, OwnerReferences: own}, Revision: int64(i + 1)})
 		w.revNames = append(w.revNames, name)
 	}
 	for i := 0; i < cs.Unrelated; i++ {
